@@ -95,3 +95,43 @@ package keeper
 //@       && old(Order[Shard[shardId].OrderId].Shards)[0] == shardId ==> !has(Order, old(Shard[shardId].OrderId))
 //@   loop L1 invariant -1 <= rangeindex && rangeindex < len(order.Shards)
 //@   loop L1 decreases [C02.expire.term] len(order.Shards) - rangeindex
+
+
+// requestSignedBy(d): the request being handled carries a valid JWS, over exactly the marshalled proposal passed to
+// verifySignature, by a key of DID d (meaning given only by the assumed contract of verifySignature)
+//@ ghost requestSignedBy(string) bool
+
+// verifySignature delegates to sao-did (DID resolution, JWS verification: cryptography outside the subset).
+//@ func (Keeper) verifySignature(ctx, owner, proposal, jwsSignature) (sigDid, err)
+//@   trusted assumed from sao-did: VerifyJWS succeeds only for a signature over exactly the given payload by a key of the DID manager's DID, and the signature's kid belongs to that DID
+//@   modifies nothing
+//@   ensures [C09.sig] err == nil ==> sigDid == owner && requestSignedBy(sigDid)
+
+// Terminate: the owner or a read-write grantee ends a data model; all its orders are settled and its shards removed.
+//@ func (msgServer) Terminate(goCtx, msg) (resp, err)
+//@   requires msg != nil
+//@   requires forall w string :: has(Worker, w) ==> Worker[w].Workername == w
+//@   requires forall c string :: has(Pledge, c) ==> Pledge[c].Creator == c
+//@   requires forall c string :: has(PledgeDebt, c) ==> PledgeDebt[c].Sp == c && PledgeDebt[c].Debt.Amount >= 0
+//@   requires forall i int :: 0 <= i && i <= MaxUint64 && has(Shard, i) ==> Shard[i].Id == i && Shard[i].Pledge.Amount >= 0
+//@   requires forall c string :: has(DidBalances, c) ==> DidBalances[c].Did == c
+//@   requires forall c string :: has(Metadata, c) ==> Metadata[c].DataId == c
+//@   modifies *
+//@   ensures [C09.terminate.auth] err == nil ==> old(has(Metadata, msg.Proposal.DataId)) && requestSignedBy(msg.Proposal.Owner)
+//@       && (msg.Proposal.Owner == old(Metadata[msg.Proposal.DataId].Owner) || contains(old(Metadata[msg.Proposal.DataId].ReadwriteDids), msg.Proposal.Owner))
+//@   ensures [C09.terminate.frame] forall d string :: d != msg.Proposal.DataId ==> Metadata[d] == old(Metadata[d]) && (has(Metadata, d) <==> old(has(Metadata, d)))
+//@   ensures [C10.terminate.actor] err == nil ==> actsFor(msg.Creator, msg.Provider, old(has(Node, msg.Provider)), old(Node[msg.Provider]))
+//@   loop L1 invariant -1 <= rangeindex
+//@   loop L1 invariant isProvider ==> contains(provider.TxAddresses, msg0.Creator)
+//@   loop L2 invariant -1 <= rangeindex && rangeindex < len(meta.ReadwriteDids)
+//@   loop L2 invariant forall j int :: 0 <= j && j <= rangeindex ==> meta.ReadwriteDids[j] != sigDid
+//@   loop L3 invariant -1 <= rangeindex
+//@   loop L3 invariant forall w string :: has(Worker, w) ==> Worker[w].Workername == w
+//@   loop L3 invariant forall c string :: has(Pledge, c) ==> Pledge[c].Creator == c
+//@   loop L3 invariant forall c string :: has(PledgeDebt, c) ==> PledgeDebt[c].Sp == c && PledgeDebt[c].Debt.Amount >= 0
+//@   loop L3 invariant forall c string :: has(DidBalances, c) ==> DidBalances[c].Did == c
+//@   loop L4 invariant -1 <= rangeindex
+//@   loop L5 invariant [C01.maporder.terminate] forall i int :: 0 <= i && i <= MaxUint64 ==> (has(Shard, i) <==> (old(has(Shard, i)) && !visited(i)))
+//@   loop L5 invariant [C01.maporder.terminate] forall i int :: 0 <= i && i <= MaxUint64 && has(Shard, i) ==> Shard[i] == old(Shard[i])
+//@   loop L5 invariant [C01.maporder.terminate] forall i int :: visited(i) ==> indom(shardSet, i)
+//@   loop L5 ensures [C01.maporder.terminate] forall i int :: 0 <= i && i <= MaxUint64 ==> (has(Shard, i) <==> (old(has(Shard, i)) && !indom(shardSet, i)))
